@@ -30,7 +30,8 @@ Record qos := {
 
 Inductive policy_id :=
   PDurability | PPresentation | PDeadline | PLatencyBudget | POwnership | PLiveliness
-| PReliability | PDestinationOrder.
+| PReliability | PDestinationOrder
+| POther.   (* any QosPolicyId that has no request/offered rule; never a legitimate cause *)
 
 (* derived Ord = declaration order *)
 Definition dur_rank (d : durability) : Z :=
@@ -133,6 +134,7 @@ Definition RxO_p (p : policy_id) (off req : qos) : Prop :=
                      (fun o r => rel_rank r <= rel_rank o)
   | PDestinationOrder => when_both (q_dest_order off) (q_dest_order req)
                      (fun o r => do_rank r <= do_rank o)
+  | POther => True
   end.
 
 Definition all_policies : list policy_id :=
@@ -162,6 +164,7 @@ Definition rxo_pb (p : policy_id) (off req : qos) : bool :=
                      (fun o r => negb (rel_rank r <=? rel_rank o)))
   | PDestinationOrder => negb (both (q_dest_order off) (q_dest_order req)
                      (fun o r => negb (do_rank r <=? do_rank o)))
+  | POther => true
   end.
 
 Definition rxo_b (off req : qos) : bool := forallb (fun p => rxo_pb p off req) all_policies.
@@ -169,28 +172,78 @@ Definition rxo_b (off req : qos) : bool := forallb (fun p => rxo_pb p off req) a
 (* ------------------------------------------------------------------------------------------ *)
 (* Correspondence interface *)
 Definition case := (qos * qos)%type.          (* offered, requested *)
-Definition obs := option policy_id.            (* what compliance_failure_wrt returned *)
 
-Definition run (c : case) : obs := compliance (fst c) (snd c).
+(* what one call site (Writer::update_reader_proxy / Reader::update_writer_proxy, both of which call
+   compliance_failure_wrt(offered, requested)) reported through its status channel *)
+Inductive side := SNotRun | SSilent | SMatched | SIncompatible (p : policy_id).
+
+Record obs := {
+  o_verdict : option policy_id;      (* what compliance_failure_wrt returned *)
+  o_writer_side : side;
+  o_reader_side : side }.
+
+Definition side_of (v : option policy_id) : side :=
+  match v with None => SMatched | Some p => SIncompatible p end.
+
+Definition run (c : case) : obs :=
+  let v := compliance (fst c) (snd c) in
+  {| o_verdict := v; o_writer_side := side_of v; o_reader_side := side_of v |}.
 
 Definition policy_eqb (a b : policy_id) : bool :=
   match a, b with
   | PDurability, PDurability | PPresentation, PPresentation | PDeadline, PDeadline
   | PLatencyBudget, PLatencyBudget | POwnership, POwnership | PLiveliness, PLiveliness
-  | PReliability, PReliability | PDestinationOrder, PDestinationOrder => true
+  | PReliability, PReliability | PDestinationOrder, PDestinationOrder | POther, POther => true
   | _, _ => false
   end.
 
-Definition obs_eqb (a b : obs) : bool :=
+Definition verdict_eqb (a b : option policy_id) : bool :=
   match a, b with
   | None, None => true
   | Some x, Some y => policy_eqb x y
   | _, _ => false
   end.
 
-(* The property on an observed verdict: matched iff RxO; a reported cause really is violated. *)
-Definition ok (c : case) (o : obs) : bool :=
-  match o with
+(* the implementation's side observation (second argument) may be SNotRun: the call sites are
+   exercised on a subset of the cases only *)
+Definition side_eqb (m i : side) : bool :=
+  match m, i with
+  | _, SNotRun => true
+  | SSilent, SSilent | SMatched, SMatched => true
+  | SIncompatible p, SIncompatible q => policy_eqb p q
+  | _, _ => false
+  end.
+
+Definition obs_eqb (m i : obs) : bool :=
+  verdict_eqb (o_verdict m) (o_verdict i)
+  && side_eqb (o_writer_side m) (o_writer_side i)
+  && side_eqb (o_reader_side m) (o_reader_side i).
+
+(* The property on one observed verdict: matched iff RxO; a reported cause really is violated. *)
+Definition verdict_ok (c : case) (v : option policy_id) : bool :=
+  match v with
   | None => rxo_b (fst c) (snd c)
+  | Some POther => false
   | Some p => negb (rxo_pb p (fst c) (snd c))
   end.
+
+Definition side_ok (c : case) (s : side) : bool :=
+  match s with
+  | SNotRun => true
+  | SSilent => false                    (* neither a match nor an incompatibility verdict *)
+  | SMatched => verdict_ok c None
+  | SIncompatible p => verdict_ok c (Some p)
+  end.
+
+Definition is_matched (s : side) : bool := match s with SMatched => true | _ => false end.
+
+(* both sides reach the same verdict (matched or not) whenever both were exercised *)
+Definition sides_agree (a b : side) : bool :=
+  match a, b with
+  | SNotRun, _ | _, SNotRun => true
+  | _, _ => Bool.eqb (is_matched a) (is_matched b)
+  end.
+
+Definition ok (c : case) (o : obs) : bool :=
+  verdict_ok c (o_verdict o) && side_ok c (o_writer_side o) && side_ok c (o_reader_side o)
+  && sides_agree (o_writer_side o) (o_reader_side o).
